@@ -18,3 +18,15 @@ func VerifParseRecvCmsg(control *byte, controllen int) int {
 }
 
 const VerifUDPGROCmsgPayload = udpGROCmsgPayload
+
+// VerifGROEnabled reports whether c is a StdConn whose ListenOut runs with UDP_GRO (ancillary slots armed).
+func VerifGROEnabled(c Conn) bool {
+	s, ok := c.(*StdConn)
+	return ok && s.groSupported
+}
+
+// VerifGSOEnabled reports whether c is a StdConn whose WriteBatch may emit UDP_SEGMENT sends.
+func VerifGSOEnabled(c Conn) bool {
+	s, ok := c.(*StdConn)
+	return ok && s.bw != nil && s.bw.gsoSupported
+}
